@@ -12,7 +12,7 @@ import numpy as np
 import pandas as pd
 
 ROW_KINDS = ("array2d", "array1d", "list2d", "list1d", "intarray", "frame", "series", "reused1d", "reused2d", "tuple")
-BATCH_KINDS = ("array", "fortran", "frame", "lists", "intarray", "strided", "reused", "intframe")
+BATCH_KINDS = ("array", "fortran", "frame", "lists", "intarray", "strided", "reused", "intframe", "dupframe")
 
 
 NARROW = {"uint8array": (np.uint8, 0, 255), "uint16array": (np.uint16, 0, 65535), "int32array": (np.int32, -2 ** 31, 2 ** 31 - 1)}
@@ -47,6 +47,8 @@ class Feeder:
         return {"kinds": self.kinds}
 
     def _names(self, d):
+        if "dupframe" in self.kinds:          # every frame of this trace carries the same label on all of its columns (pd.concat of same-named Series)
+            return ["f"] * d
         return self.names or ["f%d" % i for i in range(d)]
 
     # ---- one observation for a streaming detector ------------------------------------------------
@@ -98,7 +100,7 @@ class Feeder:
             return a
         if kind == "fortran":
             return np.asfortranarray(a)
-        if kind == "frame":
+        if kind in ("frame", "dupframe"):
             return pd.DataFrame(a, columns=self._names(d))
         if kind == "intframe":
             whole = bool(np.all(a == np.round(a)))
